@@ -92,6 +92,7 @@ type Executor struct {
 	MaxSwitches int
 	shallowTypes []types.Type
 	usesLower    bool
+	psOther      bool // the last pointerstructure walk failed on a non-container (not ErrNotFound)
 	affixes      map[string]bool // "uf_hasprefix|lit" / "uf_hassuffix|lit" asked of some string variable
 	// witnesses: solver models of complete paths, for validating the translation against the native build
 	WitnessMax int
@@ -611,7 +612,7 @@ func (ex *Executor) constVal(c *ssa.Const) Val {
 		return ex.zero(t)
 	}
 	if isNamed(t, "time", "Time") {
-		return smt.IntC(0)
+		return ZeroTime()
 	}
 	switch u := t.Underlying().(type) {
 	case *types.Basic:
